@@ -4,7 +4,16 @@ Proof: Osrm.v theorems (reply handling total under the 'no surplus entries' prov
 rows sound, no memory).  Tie/search at L3: the real binary wired to a scripted OSRM stub (raw sockets):
 each listed fault at the origin lookup, the destination lookup or both; the expected answer is computed by
 the extracted Osrm.v model (rows) + the extracted routing model; liveness; after recovery the healthy
-answer must be byte-identical; 1- and 4-thread servers."""
+answer must be byte-identical; 1- and 4-thread servers.
+
+Recovery histories: the stops of every dataset are spread over two or three clusters 39 km apart (l3.set_clusters), every
+query has its origin point in the cluster of its first access row and its destination point in the cluster of its first
+egress row, so the lookups of different requests have DIFFERENT candidate stop sets.  A history is
+   healthy Q1  ->  Q1 with the fault  ->  healthy Q2 (origin lookup over another candidate set than the lookup that failed)
+   ->  healthy Q1
+and every healthy answer must be byte-identical to the answer the same request got in the fault-free exchange sequence at
+the start of the server's life (which itself must agree with the model): state left behind by a failed lookup
+(per thread, per calculator, per connection) shows up as a wrong answer to Q2 or to the second Q1."""
 import os, sys, time, json, shutil, subprocess
 import build, checklib as cl, run, gen, l3, l3batch
 from check_c12 import cl_open
@@ -25,6 +34,68 @@ def model_rows(driver, fault, asked_rows, maxt):
     return [(v[i], v[i + 1], v[i + 2]) for i in range(0, len(v), 3)]
 
 
+def lookup_outcomes(conns):
+    """Every way the connections the router stub handled for ONE request (the fault applied to each, in order) can be
+    split over the origin lookup and the destination lookup, for the faults of RETRIED: a lookup takes one connection
+    (healthy, or a fault that was not retried: a reset that reaches the client while it is still connecting is an error of
+    connect(), which client_http.hpp does not retry) or two (a fault, then the single retry).
+    -> set of (origin lookup failed, destination lookup failed)"""
+    def one(cs):
+        """-> [(failed, rest)]"""
+        if not cs:
+            return []
+        out = [(cs[0] is not None, cs[1:])]
+        if cs[0] is not None and len(cs) >= 2:
+            out.append((cs[1] is not None, cs[2:]))
+        return out
+    res = set()
+    for (o, rest) in one(list(conns)):
+        for (dd, rest2) in one(rest):
+            if not rest2:
+                res.add((o, dd))
+    return res
+
+
+_memo = {}
+
+
+def _memo_run(key, fn):
+    if key not in _memo:
+        _memo[key] = fn()
+    return _memo[key]
+
+
+def model_answer(dr, d, ds, q, ro, rd):
+    """canonical answer of the extracted routing model for the footpath rows ro (origin) / rd (destination)"""
+    def go():
+        case = os.path.join(d, "m.case")
+        with open(case, "w") as fh:
+            fh.write(l3batch.normalize_dataset(ds).text())
+            fh.write("route %s 0 %s %s\n" % (gen.q_text(q), gen.rows_text(ro), gen.rows_text(rd)))
+        rc, out = run.run_cmd([dr, "model", case])
+        return out.strip().split(" | opt")[0].strip()
+    return _memo_run(("model", ds.c20key, gen.q_text(q), tuple(ro), tuple(rd)), go)
+
+
+def pick_queries(rng, ds, prof, nq):
+    """nq feasible-looking queries with their points placed in the clusters of their first access / egress rows;
+    at least two different origin clusters among them (a query is made up when the generator gives none)"""
+    cand = [(q, a, e) for (q, a, e) in l3._gen_queries(gen, rng, ds, prof, nq * 5) if a and e]
+    for (q, a, e) in cand:
+        q["maxacc"], q["maxegr"] = 1200, 1200
+        q["origin_off"], q["dest_off"] = l3.lon_off(ds, a[0][0]), l3.lon_off(ds, e[0][0])
+    out = cand[:nq]
+    if out and len(set(q["origin_off"] for (q, _, _) in out)) < 2:
+        other = [c for c in cand[nq:] if c[0]["origin_off"] != out[0][0]["origin_off"]]
+        if other:
+            out[-1] = other[0]
+        else:
+            q, a, e = out[-1]
+            off = [o for o in sorted(set(ds.lon_off.values())) if o != q["origin_off"]][0]
+            out[-1] = (dict(q, origin_off=off), [(l3.candidates(ds, off)[0], 0, 10)], e)
+    return out
+
+
 def main(pid, tier, seed, replay_path=None):
     t0 = time.time()
     po = cl.proof_obligations(pid)
@@ -40,31 +111,52 @@ def main(pid, tier, seed, replay_path=None):
     shutil.rmtree(d, ignore_errors=True)
     os.makedirs(d, exist_ok=True)
     fails, evals, nontriv, classes = [], 0, set(), {}
+    rec_hist, rec_answers, rec_distinct, clusters_used, baselines, unretried = 0, 0, 0, {}, 0, 0
     for di in range(nds):
         prof = dict(gen.PROFILES["opt"], pempty=0.0)
         ds = gen.gen_dataset(rng.fork(), prof)
-        queries = [(q, a, e) for (q, a, e) in l3._gen_queries(gen, rng, ds, prof, nq * 3) if a and e][:nq]
-        for (q, a, e) in queries:
-            q["maxacc"], q["maxegr"] = 1200, 1200
+        ncl = 3 if (di % 3 == 2 and len(ds.nodes) >= 6) else 2
+        l3.set_clusters(ds, ncl)
+        ds.c20key = (seed, tier, di)
+        clusters_used[str(ncl)] = clusters_used.get(str(ncl), 0) + 1
+        queries = pick_queries(rng, ds, prof, nq)
         cache = os.path.join(d, "cache%d" % di)
         l3.write_cache(ds, cache)
+        # the stops the server asks about: the stops of the point's cluster pass the bird-distance pre-filter, in id order
+        def full(rows, off):
+            t = dict((r[0], r) for r in rows)
+            return [t.get(n, (n, l3.UNREACHABLE, l3.UNREACHABLE)) for n in l3.candidates(ds, off)]
+
+        def rows_for(fault, rows, off, maxt):
+            asked = full(rows, off)
+            return _memo_run(("rows", fault, tuple(asked), maxt), lambda: model_rows(dr, fault, asked, maxt))
         for threads in ((1, 4) if di == 0 or tier == "thorough" else (1,)):
             stub = l3.OsrmStub()
+            stub.set_layout(ds)
             srv = l3.Server(binary, cache, stub.port, threads=threads)
             try:
+                # fault-free exchange sequence: the reference answers of this server's life
+                ref = []
                 for (q, acc, egr) in queries:
                     stub.set_tables(acc, egr)
                     stub.set_faults([])
                     st0, hd0, body0 = srv.get(l3.route_qs(q))
-                    base = l3.canon_route(body0)
-                    # the stops the server asks about: every stop passes the bird-distance pre-filter, in id order
-                    full = lambda rows: [(n, dict((r[0], r) for r in rows).get(n, (n, 100000, 100000))[1], dict((r[0], r) for r in rows).get(n, (n, 100000, 100000))[2]) for n in sorted(ds.nodes)]
+                    evals += 1
+                    baselines += 1
+                    ref.append((st0, body0))
+                    want = model_answer(dr, d, ds, q, rows_for(None, acc, q["origin_off"], q["maxacc"]), rows_for(None, egr, q["dest_off"], q["maxegr"]))
+                    got0 = l3.canon_route(body0) if st0 is not None else "route noreply"
+                    if got0 != want:
+                        fails.append(("fault-free exchange (threads=%d): answered %r, the model gives %r" % (threads, got0[:160], want[:160]), q, acc, egr, ds, []))
+                turn = 0
+                for qi, (q, acc, egr) in enumerate(queries):
+                    st0, body0 = ref[qi]
                     for f in FAULTS:
                         for pos in ("origin", "dest", "both"):
                             rep = [f, f] if f in RETRIED else [f]
                             seq = rep if pos == "origin" else ([None] + rep if pos == "dest" else rep + rep)
-                            ro = model_rows(dr, f if pos in ("origin", "both") else None, full(acc), q["maxacc"])
-                            rd = model_rows(dr, f if pos in ("dest", "both") else None, full(egr), q["maxegr"])
+                            ro = rows_for(f if pos in ("origin", "both") else None, acc, q["origin_off"], q["maxacc"])
+                            rd = rows_for(f if pos in ("dest", "both") else None, egr, q["dest_off"], q["maxegr"])
                             if ro == "exn" or (rd == "exn" and ro != "exn" and True):
                                 expected = "route queryerror PARAM_ERROR_UNKNOWN"
                                 if ro == "exn" and pos == "both":
@@ -72,37 +164,68 @@ def main(pid, tier, seed, replay_path=None):
                             elif ro == "ub" or rd == "ub":
                                 expected = None
                             else:
-                                case = os.path.join(d, "m.case")
-                                with open(case, "w") as fh:
-                                    fh.write(l3batch.normalize_dataset(ds).text())
-                                    fh.write("route %s 0 %s %s\n" % (gen.q_text(q), gen.rows_text(ro), gen.rows_text(rd)))
-                                rc, out = run.run_cmd([dr, "model", case])
-                                expected = out.strip().split(" | opt")[0].strip()
+                                expected = model_answer(dr, d, ds, q, ro, rd)
                             stub.set_tables(acc, egr)
                             stub.set_faults(seq)
+                            n_conn, n_req = len(stub.faults_applied), len(stub.requests_seen)
                             st, hd, body = srv.get(l3.route_qs(q), timeout=25)
                             got = l3.canon_route(body) if st is not None else "route noreply"
                             evals += 1
                             cls = " ".join(got.split()[:2]) + ((" " + got.split()[2]) if "noroute" in got or "queryerror" in got else "")
                             classes[cls] = classes.get(cls, 0) + 1
                             label = "fault %s at %s (threads=%d)" % (f, pos, threads)
+                            hist = ["healthy  %s" % l3.route_qs(q), "%-8s %s   (router script %s)" % ("FAULT", l3.route_qs(q), seq)]
                             if not srv.alive():
-                                fails.append((label + ": server process died (exit %s)" % srv.exit_status(), q, acc, egr, ds))
+                                fails.append((label + ": server process died (exit %s)" % srv.exit_status(), q, acc, egr, ds, hist))
                                 srv = l3.Server(binary, cache, stub.port, threads=threads)
                                 continue
+                            conns = stub.faults_applied[n_conn:]
+                            if st is not None and f in RETRIED and expected is not None and got != expected and len(conns) != len(seq) + (1 if pos == "origin" else 0):
+                                # the connections were not used the way the script assumes (fault, silent retry, ...): accept the
+                                # model's answer for any split of the connections actually made over the two lookups
+                                alts = set(model_answer(dr, d, ds, q, rows_for(f if o else None, acc, q["origin_off"], q["maxacc"]),
+                                                        rows_for(f if dd else None, egr, q["dest_off"], q["maxegr"])) for (o, dd) in lookup_outcomes(conns))
+                                if got in alts:
+                                    unretried += 1
+                                    expected = got
                             if st is None:
-                                fails.append((label + ": request got no response", q, acc, egr, ds))
+                                fails.append((label + ": request got no response", q, acc, egr, ds, hist))
                             elif expected is not None and got != expected:
-                                fails.append((label + ": answered %r, the model of the reply handling gives %r" % (got[:160], expected[:160]), q, acc, egr, ds))
+                                hist = hist + ["the router stub handled the connections %s (fault applied to each), read the lookups %s, script left over %s"
+                                               % (stub.faults_applied[n_conn:], stub.requests_seen[n_req:], stub.pending_faults())]
+                                fails.append((label + ": answered %r, the model of the reply handling gives %r" % (got[:160], expected[:160]), q, acc, egr, ds, hist))
                             elif got.startswith(("route noroute", "route queryerror")):
                                 nontriv.add((f, pos, threads, got.split()[1], di))
                             left = stub.pending_faults()
-                            # recovery: the healthy exchange afterwards is answered exactly as before the fault
-                            stub.set_faults([])
-                            st2, hd2, body2 = srv.get(l3.route_qs(q))
-                            evals += 1
-                            if st2 != st0 or body2 != body0:
-                                fails.append((label + ": after recovery the answer differs from the fault-free one", q, acc, egr, ds))
+                            # recovery history: a healthy request whose ORIGIN lookup (the next lookup of a one-thread server)
+                            # runs over another candidate set than the first lookup that failed, then the faulted request again,
+                            # healthy: both are answered exactly as in the fault-free sequence
+                            stale = q["origin_off"] if pos in ("origin", "both") else q["dest_off"]
+                            partners = [j for j in range(len(queries)) if j != qi and queries[j][0]["origin_off"] != stale] or \
+                                       [j for j in range(len(queries)) if queries[j][0]["origin_off"] != stale] or \
+                                       [j for j in range(len(queries)) if j != qi] or [qi]
+                            pj = partners[turn % len(partners)]
+                            turn += 1
+                            rec_hist += 1
+                            if queries[pj][0]["origin_off"] != stale:
+                                rec_distinct += 1
+                            for (j, what) in ((pj, "another request"), (qi, "the same request")):
+                                q2, acc2, egr2 = queries[j]
+                                stub.set_tables(acc2, egr2)
+                                stub.set_faults([])
+                                st2, hd2, body2 = srv.get(l3.route_qs(q2))
+                                evals += 1
+                                rec_answers += 1
+                                hist = hist + ["healthy  %s   (tables: origin %s destination %s)" % (l3.route_qs(q2), acc2, egr2)]
+                                if not srv.alive():
+                                    fails.append((label + ": server process died (exit %s) on %s after recovery" % (srv.exit_status(), what), q, acc, egr, ds, hist))
+                                    srv = l3.Server(binary, cache, stub.port, threads=threads)
+                                    break
+                                if (st2, body2) != ref[j]:
+                                    g2 = l3.canon_route(body2) if st2 is not None else "route noreply"
+                                    fails.append((label + ": after recovery %s (origin cluster %d, destination cluster %d; the failed lookup was over cluster %d) "
+                                                  "is answered %r, fault-free it is %r" % (what, q2["origin_off"] // l3.CLUSTER_STEP, q2["dest_off"] // l3.CLUSTER_STEP,
+                                                                                         stale // l3.CLUSTER_STEP, g2[:120], l3.canon_route(ref[j][1])[:120]), q, acc, egr, ds, hist))
             finally:
                 srv.stop()
                 stub.close()
@@ -110,10 +233,14 @@ def main(pid, tier, seed, replay_path=None):
     rc, viol = 0, []
     os.makedirs(os.path.join(cl.REPLAYS, pid), exist_ok=True)
     if fails:
-        why, q, acc, egr, ds = fails[0]
+        why, q, acc, egr, ds, hist = fails[0]
         path = os.path.join(cl.REPLAYS, pid, "%s-%d.case" % (pid, int(time.time())))
         with open(path, "w") as f:
             f.write("# %s\n# request %s\n# tables: origin %s destination %s\n" % (why, l3.route_qs(q), acc, egr))
+            f.write("# stop clusters (stop: cluster; cluster k lies %.1f degrees of longitude east of cluster 0): %s\n"
+                    % (l3.CLUSTER_STEP / 1e6, " ".join("%d:%d" % (n, l3.lon_off(ds, n) // l3.CLUSTER_STEP) for n in sorted(ds.nodes))))
+            for h in hist:
+                f.write("# history: %s\n" % h)
             f.write(l3batch.normalize_dataset(ds).text())
         print("VIOLATION property=%s replay=%s\n  %s" % (pid, path, why))
         for w in sorted(set(x[0][:100] for x in fails))[:6]:
@@ -126,12 +253,17 @@ def main(pid, tier, seed, replay_path=None):
     cov = dict(obligations=max(1, po["obligations"]), discharged=po["discharged"], checker_cmd=po["checker_cmd"], trusted_base=cl.TRUSTED_BASE,
                theorems=po["theorems"], print_assumptions=po["assumptions"], open_statements=cl_open(pid),
                evaluations=evals, distinct_nontrivial=len(nontriv),
-               rule="each fault of the property's list (refuse, drop, truncate, status 500, empty body, non-JSON, no durations, null entries, fewer entries) at the origin lookup, the destination lookup or both, on 1- and 4-thread servers; expected answer = extracted Osrm.v reply handling + extracted routing model; liveness after every request; a healthy exchange afterwards must give the byte-identical fault-free answer; non-trivial = distinct (fault, position, threads, degraded answer class)",
+               recovery_histories=rec_hist, recovery_answers=rec_answers, recovery_histories_distinct_candidate_sets=rec_distinct,
+               clusters_used=clusters_used, fault_free_reference_answers=baselines, connect_resets_not_retried=unretried,
+               rule="each fault of the property's list (refuse, drop, truncate, status 500, empty body, non-JSON, no durations, null entries, fewer entries) at the origin lookup, the destination lookup or both, on 1- and 4-thread servers; expected answer = extracted Osrm.v reply handling + extracted routing model; liveness after every request; "
+                    "stops spread over 2 or 3 clusters 39 km apart so that lookups have different candidate stop sets; recovery history after every fault = healthy request with its origin in another cluster than the failed lookup, then the faulted request again, healthy: both must get the byte-identical answer of the fault-free exchange sequence (which must equal the model's answer); non-trivial = distinct (fault, position, threads, degraded answer class)",
                samples=[dict(fault="status500", position="origin", expected="route noroute 1")], answer_classes=classes,
                excluded_classes=["reply with MORE entries than stops asked (outside the property's fault list): model and binary both leave defined behaviour (Example osrm_more_entries_is_ub; the binary dies) — counted, not a C20 violation",
-                                 "router that accepts and never answers: the client has no timeout, the worker thread blocks (runtime, not modelled)"],
+                                 "router that accepts and never answers: the client has no timeout, the worker thread blocks (runtime, not modelled)",
+                                 "a reset that reaches the client before its connect() completed is not retried by client_http.hpp (about 1 in 10^4 'refuse' connections): the answer is then compared with the model for the split of the connections actually made (connect_resets_not_retried)"],
                violations=len(fails), exhaustive=False)
     cl.write_evidence(pid, tier, seed, "proof", cov, ["socket-level behaviour of client_http.hpp (timeouts, half-open connections, the single silent retry) is runtime: exercised, not proved"],
                       time.time() - t0, len(viol))
-    print("%s %s: obligations %d/%d, %d exchanges (%d distinct degraded cases), %d violations, %.1fs" % (pid, tier, po["discharged"], po["obligations"], evals, len(nontriv), len(fails), time.time() - t0))
+    print("%s %s: obligations %d/%d, %d exchanges (%d distinct degraded cases), %d recovery histories (%d with a different candidate set, %d answers), %d violations, %.1fs"
+          % (pid, tier, po["discharged"], po["obligations"], evals, len(nontriv), rec_hist, rec_distinct, rec_answers, len(fails), time.time() - t0))
     return rc
